@@ -488,6 +488,22 @@ public:
 				o += ",\"e\":" + expr(UE->getArgumentExpr());
 			return o + "}";
 		}
+		if (auto *LE = dyn_cast<LambdaExpr>(E))
+		{
+			// a lambda: parameters and body, so that std::all_of / any_of / for_each over a
+			// container can be read as the loop they are
+			std::string o = "{\"k\":\"lambda\",\"params\":[";
+			bool first = true;
+			if (const CXXMethodDecl *CO = LE->getCallOperator())
+				for (auto *P : CO->parameters())
+				{
+					if (!first) o += ",";
+					first = false;
+					o += "{\"n\":" + jstr(P->getNameAsString()) + ",\"id\":" + std::to_string(id(P)) + ",\"t\":" + jstr(cty(P->getType())) + "}";
+				}
+			o += "],\"b\":" + stmt(LE->getBody()) + T(E) + L(E) + "}";
+			return o;
+		}
 		if (auto *IL = dyn_cast<InitListExpr>(E))
 		{
 			std::vector<const Expr*> a(IL->inits().begin(), IL->inits().end());
